@@ -293,6 +293,8 @@ func varargsLen(v ssa.Value) int {
 }
 
 func runC16(w *World, r *Report) {
+	entryPointsKeepNoState(w, r, "C16", allEntryRoots(w), "reachable from an entry point", "an entry point writes package-level storage: what the next call (the next target of this compile, the next request to the library) delivers depends on the calls before it, not only on its own input")
+
 	c16Format(w, r)
 	c16Export(w, r)
 	c16Compile(w, r)
